@@ -4,6 +4,7 @@ block over parallel single-worker processes; simulation mode with several seeds)
 exported documents: {src, html, lines, defs, tags, nblocks}.
 """
 import json
+import re
 from concurrent.futures import ThreadPoolExecutor
 
 from . import core, htmlnorm, proj
@@ -114,7 +115,10 @@ def roundtrip_records(ck, m, record):
     docs += exhaustive(ck, 'DocGenQ.cfg')
     docs = dedupe(concretise(docs))
     out = []
+    charref = re.compile(r'&(#[0-9]+|#[xX][0-9a-fA-F]+|[A-Za-z][A-Za-z0-9]*);')
     for i, d in enumerate(docs):
+        if charref.search(d['src']):
+            continue          # the property statement sets character references aside for the generated domain
         for nw in (False, True):
             try:
                 r = record(m, d['src'], nw)
